@@ -9,7 +9,7 @@ for spec in "$@"; do
   WT=/tmp/vs2-$ID
   git -C /repo worktree add -q $WT HEAD || continue
   cd $WT
-  demo=$(ls $S/$ID/*.rs | head -1)
+  demo=$S/$ID/$(basename $DEST); [ -f "$demo" ] || demo=$(ls $S/$ID/*.rs | head -1)
   mkdir -p $(dirname $DEST); cp $demo $DEST
   T=$(basename $DEST .rs)
   if [ -n "$MODFILE" ]; then
@@ -22,9 +22,9 @@ s = s.replace(anchor + "\n", anchor + "\n#[cfg(test)]\nmod " + name + ";\n", 1)
 open(f, "w").write(s)
 PY
   fi
-  echo "== $ID: demo on the unmodified tree"; cargo nextest run -p $CRATE --offline --no-fail-fast -E "test($T)" 2>&1 | grep -E "Summary|error(\[|:)" | head -3
+  echo "== $ID: demo on the unmodified tree"; cargo nextest run -p $CRATE --offline --no-fail-fast -E "test($T) | binary($T)" 2>&1 | grep -E "Summary|error(\[|:)" | head -3
   git apply $S/$ID/patch.diff || echo "PATCH DOES NOT APPLY"
-  echo "== $ID: demo with the change"; cargo nextest run -p $CRATE --offline --no-fail-fast -E "test($T)" 2>&1 | grep -E "Summary|error(\[|:)" | head -3
+  echo "== $ID: demo with the change"; cargo nextest run -p $CRATE --offline --no-fail-fast -E "test($T) | binary($T)" 2>&1 | grep -E "Summary|error(\[|:)" | head -3
   rm $DEST
   if [ -n "$MODFILE" ]; then python3 - "$MODFILE" "$MODNAME" <<'PY'
 import sys
